@@ -26,6 +26,8 @@ Decides:
  K doc writers     see C12.
  E2b request args   the Spaces rule (arguments of requests, e.g. `.SS <group title>`) never copies a backslash (found and fixed 8661d4e: it did).
  G text arm        while text is rendered the only structural tag written is `<br>`.
+ K splitter cuts / S front type   the splitter cuts at character boundaries (shared with C04); peek_front_ty looks through Or and past hidden members, so
+                    a group whose first member is hidden still yields its commands' sections (shared with C12).
 Does not decide: that the byte loop is a complete roff escaper for every input; markdown well-formedness."""
 import re
 from core import *
